@@ -32,6 +32,32 @@ var decoders = []decoder{
 	}},
 }
 
+// chunkedDecoders read the stream through a harness reader that fragments every read (C05 explores schedules
+// exhaustively; here the two uniform ones make the round-trip checks independent of full reads).
+var chunkedDecoders = []decoder{
+	{"DecodeBebop(1-byte reads)", func(rec bebop.Record, b []byte) (bool, driver.Outcome) {
+		cr := driver.NewChunkReader(b)
+		cr.Choose = pickOption(driver.OptOne)
+		return true, driver.Guard(func() error { return rec.DecodeBebop(cr) })
+	}},
+	{"DecodeBebop(half reads)", func(rec bebop.Record, b []byte) (bool, driver.Outcome) {
+		cr := driver.NewChunkReader(b)
+		cr.Choose = pickOption(driver.OptHalf)
+		return true, driver.Guard(func() error { return rec.DecodeBebop(cr) })
+	}},
+}
+
+func pickOption(want int) func(opts []int) int {
+	return func(opts []int) int {
+		for i, o := range opts {
+			if o == want {
+				return i
+			}
+		}
+		return 0
+	}
+}
+
 func outcomeStr(o driver.Outcome) string {
 	if o.Panicked {
 		return "panic(" + o.PanicKind + " in " + o.Site + "): " + vlib.Short(o.PanicMsg, 120)
@@ -78,7 +104,11 @@ func (w *W) c01(groups [][]*driver.Bound) {
 						continue
 					}
 					w.distinctKey(b.Case.ID + string(en.b))
-					for _, d := range decoders {
+					decs := decoders
+					if en.name == "EncodeBebop" {
+						decs = append(append([]decoder{}, decoders...), chunkedDecoders...)
+					}
+					for _, d := range decs {
 						out := b.New()
 						ran, o := d.run(out, en.b)
 						if !ran {
@@ -316,7 +346,11 @@ func (w *W) c03(groups [][]*driver.Bound) {
 						return
 					}
 					var ref refcodec.Enc
-					refcodec.EncodeRec(&ref, rv, refcodec.Rotation(r))
+					if maxMapLen(rv) > 8 {
+						refcodec.EncodeRec(&ref, rv, nil)
+					} else {
+						refcodec.EncodeRec(&ref, rv, refcodec.Rotation(r))
+					}
 					e := encodeAll(rec)
 					w.res.Transitions += 3
 					ci := caseInfo(b, rv)
@@ -328,6 +362,14 @@ func (w *W) c03(groups [][]*driver.Bound) {
 					}{{"MarshalBebop", e.marshal, e.oM}, {"EncodeBebop", e.stream, e.oS}} {
 						if en.o.Panicked || en.o.Err != nil {
 							w.report(fmt.Sprintf("C03|encode-fails|%s|%s|%s", en.name, b.Case.Class, failKind(en.o)), en.name+" failed: "+outcomeStr(en.o), ci)
+							continue
+						}
+						if maxMapLen(rv) > 8 {
+							// iteration order of maps with more than 8 entries is not the rotation the reference models:
+							// compare the length only (entry contents are covered by the decode direction and by C01)
+							if len(en.b) != len(ref.B) {
+								w.report(fmt.Sprintf("C03|length-differs|%s|%s", en.name, b.Case.Class), fmt.Sprintf("%s emitted %d bytes, the wire encoding has %d", en.name, len(en.b), len(ref.B)), ci)
+							}
 							continue
 						}
 						if !bytes.Equal(en.b, ref.B) {
@@ -346,6 +388,16 @@ func (w *W) c03(groups [][]*driver.Bound) {
 					refcodec.EncodeRec(&ref, rv, func(n int) []int {
 						if n == len(p) {
 							return p
+						}
+						if n > 8 {
+							// big maps: insertion order, or reversed
+							o := seq(n)
+							if pi%2 == 1 {
+								for i, j := 0, n-1; i < j; i, j = i+1, j-1 {
+									o[i], o[j] = o[j], o[i]
+								}
+							}
+							return o
 						}
 						// smaller maps: rotate by the permutation ordinal
 						return refcodec.Rotation(pi % max(n, 1))(n)
